@@ -60,7 +60,14 @@ def components(version, strict=True):
     matches = versions_pattern.match(version)
     if matches:
         if matches.start(4) > 0:
-            return int(matches.group(1)), int(matches.group(2)), int(matches.group(3)), matches.group(4)
+            # with the non-strict pattern minor and patch may be absent although there is a suffix (e.g. "7.1-foo", "8-x")
+            minor, patch = matches.group(2), matches.group(3)
+            return (
+                int(matches.group(1)),
+                int(minor) if minor is not None else None,
+                int(patch) if patch is not None else None,
+                matches.group(4),
+            )
         elif matches.start(3) > 0:
             return int(matches.group(1)), int(matches.group(2)), int(matches.group(3)), None
         elif matches.start(2) > 0:
